@@ -292,6 +292,28 @@ theorem C04_wrapper_clone_witness :
       [("log_std", ⟨[1], [7]⟩), ("net.w", ⟨[1], [5]⟩)] ≠
       [("log_std", ⟨[1], [7]⟩), ("net.w", ⟨[1], [5]⟩)] := by decide
 
+/-! ## configuration and live network stay in step along any call sequence -/
+
+/-- **As coded on HEAD** (`early = false`): after *any* sequence of outermost mutation calls -
+    accepted, refused at a limit (configuration unchanged), or aborted by an exception at any
+    point - the depth counter is back at 0 and the live network is the one the configuration
+    (`init_dict`, every constructor option included) describes.  Hence `clone()` and
+    `reinit_from_mutated`, which rebuild from `init_dict`, rebuild the architecture whose weights
+    they load (`C04_clone_same_state` applies). -/
+theorem C04_context_in_sync (c : Ctx) (h : c.inSync = true) (es : List Ev) :
+    (Ctx.run false c es).inSync = true := by
+  induction es generalizing c with
+  | nil => exact h
+  | cons e rest ih =>
+    apply ih
+    simp only [Ctx.inSync, Bool.and_eq_true, beq_iff_eq] at h
+    simp [Ctx.call, Ctx.inSync, h.1]
+
+/-- the variant that returns from `__exit__` before the bookkeeping when an exception escapes is
+    wrong: one aborted call, then one valid mutation - the configuration moved, the network did not -/
+theorem C04_context_early_return_witness :
+    (Ctx.run true ⟨0, 0, 0⟩ [⟨false, true⟩, ⟨true, false⟩]).inSync = false := by decide
+
 /-! ## non-vacuity: concrete states satisfy the hypotheses, with the expected results -/
 
 /-- a `[2,3]` weight grown to `[3,4]`: rows 0–1 / columns 0–2 are the old values, the rest fresh -/
